@@ -729,6 +729,12 @@ fn main() {
     if args.len() >= 2 && args[1] == "--sweep-f32" {
         std::process::exit(sweeps::sweep_f32(&args[2..]));
     }
+    if args.len() >= 2 && args[1] == "--sweep-tof" {
+        std::process::exit(sweeps::sweep_tof(&args[2..]));
+    }
+    if args.len() >= 2 && args[1] == "--sweep-f64-grid" {
+        std::process::exit(sweeps::sweep_f64_grid(&args[2..]));
+    }
     if args.len() >= 2 && args[1] == "--sweep-log10" {
         std::process::exit(sweeps::sweep_log10());
     }
